@@ -164,10 +164,13 @@ func checkSVG(raw json.RawMessage) fw.Result {
 			}
 		}
 	}
-	groups := 0
+	groups, page := 0, -1
 	for _, e := range evs {
 		if e.Op == "NewGroup" {
 			groups++
+		}
+		if e.Op == "AddPage" && page < 0 {
+			page = e.Cv
 		}
 	}
 	total := 0
@@ -177,7 +180,7 @@ func checkSVG(raw json.RawMessage) fw.Result {
 		}
 	}
 	sites := make([]paintSite, len(in.Nodes))
-	replay(evs, func(i int, e rec.Event, chain []int) {
+	comps := replay(evs, func(i int, e rec.Event, chain []int) {
 		if e.Op != "SetColorRgba" {
 			return
 		}
@@ -187,6 +190,12 @@ func checkSVG(raw json.RawMessage) fw.Result {
 			}
 		}
 	})
+	for k := range sites {
+		if sites[k].has {
+			full, ok := resolve(comps, page, evs[sites[k].at].Cv, sites[k].chain)
+			sites[k].chain, sites[k].has = full, ok
+		}
+	}
 	applies := make([]bool, len(in.Nodes))
 	mats := make([]*affE, len(in.Nodes))
 	nApply := 0
